@@ -132,3 +132,115 @@ def _parent_of(root: ast.AST, target: ast.AST) -> ast.AST | None:
             if c is target:
                 return n
     return None
+
+
+# --------------------------------------------------------------------------- traversal completeness
+def collector_walkers(ctx, prefixes=("src.linters", "src.analyzers")) -> list[dict]:
+    """Self-recursive tree walkers that collect into an accumulator parameter.  Verdict: on every non-raising path
+    the function loops over ALL children of its node parameter and recurses into each (no pruning early return)."""
+    from ..util import func_paths
+
+    out = []
+    for f in sorted(ctx.repo.funcs.values(), key=lambda x: x.qual):
+        if f.parent is not None or not f.module.name.startswith(prefixes):
+            continue
+        if not any(isinstance(x, ast.Call) and call_name(x) == f.name for x in ast.walk(f.node)):
+            continue
+        params = [a.arg for a in f.node.args.args if a.arg not in ("self", "cls")]
+        acc = [p for p in params if any(isinstance(x, ast.Call) and isinstance(x.func, ast.Attribute) and x.func.attr in ("append", "extend", "add") and isinstance(x.func.value, ast.Name) and x.func.value.id == p for x in ast.walk(f.node))]
+        if not acc or not params:
+            continue
+        node_param = params[0]
+        paths = func_paths(f)
+        rec = dict(func=f.qual.replace("src.", "", 1), fq=f.qual, loc=f.loc, ok=True, detail="")
+        if paths is None:
+            rec.update(ok=None, detail="too many paths")
+            out.append(rec)
+            continue
+        n_paths = 0
+        for p in paths:
+            if p[-1][0] == "raise":
+                continue
+            n_paths += 1
+            full = False
+            for ev in p:
+                if ev[0] == "iter" and isinstance(ev[1], (ast.For, ast.AsyncFor)):
+                    it = ev[1].iter
+                    its = ast.unparse(it)
+                    all_children = its in (f"{node_param}.children", f"ast.iter_child_nodes({node_param})")
+                    recurses = any(isinstance(x, ast.Call) and call_name(x) == f.name and any(isinstance(a, ast.Name) and isinstance(ev[1].target, ast.Name) and a.id == ev[1].target.id for a in x.args) for s in ev[1].body for x in ast.walk(s))
+                    guarded = any(isinstance(s, ast.If) and any(isinstance(x, ast.Call) and call_name(x) == f.name for x in ast.walk(s)) and not any(isinstance(x, ast.Call) and call_name(x) == f.name for o in s.orelse for x in ast.walk(o)) for s in ev[1].body)
+                    if all_children and recurses and not guarded:
+                        full = True
+            if not full:
+                rec.update(ok=False, detail=f"a path ends ({norm(p[-1][1]) if p[-1][1] is not None else 'falls through'}) without recursing into every child of `{node_param}`")
+        rec["detail"] = rec["detail"] or f"all {n_paths} paths recurse into every child of `{node_param}`"
+        out.append(rec)
+    return out
+
+
+def visitor_methods(ctx, prefix="src.linters") -> list[dict]:
+    """visit_* methods of ast.NodeVisitor subclasses: every path must reach self.generic_visit(node) (directly or through a
+    self-helper all of whose paths call it), otherwise the subtree below that node is never analysed."""
+    from ..util import func_paths
+
+    def reaches(f, depth=2) -> bool | None:
+        paths = func_paths(f)
+        if paths is None:
+            return None
+        for p in paths:
+            if p[-1][0] == "raise":
+                continue
+            ok = False
+            for ev in p:
+                for root in __import__("tlsa.cfg", fromlist=["event_nodes"]).event_nodes(ev):
+                    for n in ast.walk(root):
+                        if isinstance(n, ast.Call) and call_name(n) in ("generic_visit",):
+                            ok = True
+                        elif isinstance(n, ast.Call) and isinstance(n.func, ast.Attribute) and isinstance(n.func.value, ast.Name) and n.func.value.id == "self" and depth > 0 and f.cls is not None:
+                            g = ctx.repo.find_method(f.cls.qual, n.func.attr)
+                            if g is not None and g is not f and any(isinstance(a, ast.Name) and a.id == f.node.args.args[1].arg for a in n.args) and reaches(g, depth - 1):
+                                ok = True
+            if not ok:
+                return False
+        return True
+
+    out = []
+    for f in sorted(ctx.repo.funcs.values(), key=lambda x: x.qual):
+        if not (f.name.startswith("visit_") and f.cls is not None and f.module.name.startswith(prefix) and len(f.node.args.args) >= 2):
+            continue
+        if not any("NodeVisitor" in b for b in ctx.repo.mro(f.cls.qual)):
+            continue
+        v = reaches(f)
+        out.append(dict(func=f.qual.replace("src.", "", 1), fq=f.qual, loc=f.loc, ok=v, detail="generic_visit reached on every path" if v else "a path returns without generic_visit: the node's subtree is skipped"))
+    return out
+
+
+def statement_fields() -> set[str]:
+    """Fields of Python ast node classes that hold statements (parsed from the ASDL signatures in the class docstrings)."""
+    import re
+
+    out = set()
+    for name in dir(ast):
+        c = getattr(ast, name)
+        if isinstance(c, type) and issubclass(c, ast.AST) and c.__doc__:
+            for typ, fld in re.findall(r"(\w+)\*\s+(\w+)", c.__doc__):
+                if typ in ("stmt", "excepthandler", "match_case"):
+                    out.add(fld)
+    return out
+
+
+def config_memoisation(ctx, L) -> list[dict]:
+    """_load_config/_get_config of each rule: does it store the parsed config on the instance without keying by language?"""
+    from ..linters import ABSTRACT_BASES
+
+    out = []
+    for r in L.rules:
+        for nm in ("_load_config", "_get_config"):
+            f = ctx.repo.find_method(r.qual, nm)
+            if f is None or f.cls is None or (f.cls.qual in ABSTRACT_BASES and nm == "_load_config"):
+                continue
+            stores = [n for n in ast.walk(f.node) if isinstance(n, (ast.Assign, ast.AugAssign, ast.AnnAssign)) and any(isinstance(t, ast.Attribute) and isinstance(t.value, ast.Name) and t.value.id == "self" for t in (n.targets if isinstance(n, ast.Assign) else [n.target]))]
+            keyed = any(isinstance(x, ast.Attribute) and x.attr == "language" for n in ast.walk(f.node) if isinstance(n, ast.If) for x in ast.walk(n.test))
+            out.append(dict(rule=r.short, func=f, name=nm, bad=bool(stores) and not keyed, store=norm(stores[0]) if stores else ""))
+    return out
